@@ -2,7 +2,7 @@
    Property theorems only; each is closed by [exact] of a lemma proved in
    C11/Lemmas.v or C11/HeapLemmas.v and followed by its assumptions. *)
 From Coq Require Import ZArith List Bool Permutation.
-From V Require Import C11.Model C11.Spec C11.HeapModel C11.Lemmas C11.HeapLemmas C11.Laws C11.QueueModel C11.QueueLemmas.
+From V Require Import C11.Model C11.Spec C11.HeapModel C11.Lemmas C11.HeapLemmas C11.Laws C11.QueueModel C11.QueueLemmas C11.VictimLemmas.
 Import ListNotations.
 Open Scope Z_scope.
 
@@ -278,23 +278,161 @@ Theorem C11_run_multiset : forall (A : Type) (less : A -> A -> bool) (d : A) ops
 Proof. exact @run_multiset. Qed.
 Print Assumptions C11_run_multiset.
 
-(* for a strict weak order: every history keeps the heap shape and never fails *)
-Theorem C11_run_good : forall (A : Type) (less : A -> A -> bool) (d : A),
-  (forall a b, less a b = true -> less b a = false) ->
-  (forall a b c, less a c = true -> less a b = true \/ less b c = true) ->
-  forall ops, good less d (run less ops).
+(* for a less function that is asymmetric and negatively transitive on the
+   DISTINCT elements of a set [dom] (nothing is asked of less x x, nothing outside
+   dom): every history pushing dom elements keeps the heap shape and never fails *)
+Theorem C11_run_good : forall (A : Type) (less : A -> A -> bool) (d : A) (dom : A -> Prop),
+  (forall a b : A, {a = b} + {a <> b}) ->
+  (forall a b, dom a -> dom b -> a <> b -> less a b = true -> less b a = false) ->
+  (forall a b c, dom a -> dom b -> dom c -> a <> b -> b <> c -> a <> c ->
+                 less a c = true -> less a b = true \/ less b c = true) ->
+  forall ops, Forall dom (pushed ops) -> good less d dom (run less ops).
 Proof. exact @run_good. Qed.
 Print Assumptions C11_run_good.
 
-(* ... and after ANY history Pop returns an element no queued element precedes *)
-Theorem C11_heap_pop_minimal : forall (A : Type) (less : A -> A -> bool) (d : A),
-  (forall a b, less a b = true -> less b a = false) ->
-  (forall a b c, less a c = true -> less a b = true \/ less b c = true) ->
+(* ... and after ANY such history Pop returns an element no OTHER queued element precedes *)
+Theorem C11_heap_pop_minimal : forall (A : Type) (less : A -> A -> bool) (d : A) (dom : A -> Prop),
+  (forall a b : A, {a = b} + {a <> b}) ->
+  (forall a b, dom a -> dom b -> a <> b -> less a b = true -> less b a = false) ->
+  (forall a b c, dom a -> dom b -> dom c -> a <> b -> b <> c -> a <> c ->
+                 less a c = true -> less a b = true \/ less b c = true) ->
   forall ops l outs x rest,
+    Forall dom (pushed ops) ->
     run less ops = (Some l, outs) -> pop less l = PopOk x rest ->
-    (forall y, In y l -> less y x = false) /\ Permutation (x :: rest) l.
+    (forall y, In y l -> y = x \/ less y x = false) /\ Permutation (x :: rest) l.
 Proof. exact @heap_pop_minimal. Qed.
 Print Assumptions C11_heap_pop_minimal.
+
+(* push a list, pop until empty (how BuildVictimsPriorityQueue's result is used):
+   never fails, a permutation, no later element precedes an earlier one *)
+Theorem C11_heap_sort_sorted : forall (A : Type) (less : A -> A -> bool) (d : A) (dom : A -> Prop),
+  (forall a b : A, {a = b} + {a <> b}) ->
+  (forall a b, dom a -> dom b -> a <> b -> less a b = true -> less b a = false) ->
+  (forall a b c, dom a -> dom b -> dom c -> a <> b -> b <> c -> a <> c ->
+                 less a c = true -> less a b = true \/ less b c = true) ->
+  forall xs, Forall dom xs ->
+  exists out, heap_sort less xs = Some out /\ Permutation out xs /\ sorted_by less out.
+Proof. exact @heap_sort_sorted. Qed.
+Print Assumptions C11_heap_sort_sorted.
+
+(* ---- orderings and priority queues composed ---- *)
+
+(* a PriorityQueue built on a session order function (comparators valid on the
+   set, tie-break a strict weak order on it) pops the elements of the set in that
+   order: after any history, and for push-all / pop-all *)
+Theorem C11_session_queue_pop_minimal :
+  forall (T : Type) (dom : T -> Prop) (ts : layout (T -> T -> Z)) (tb : T -> T -> bool) (d : T),
+  (forall a b : T, {a = b} + {a <> b}) -> all_valid dom ts -> swo_on dom tb ->
+  forall ops l outs x rest,
+    Forall dom (pushed ops) ->
+    run (order_fn ts tb) ops = (Some l, outs) -> pop (order_fn ts tb) l = PopOk x rest ->
+    (forall y, In y l -> y = x \/ order_fn ts tb y x = false) /\ Permutation (x :: rest) l.
+Proof. exact @session_queue_pop_minimal. Qed.
+Print Assumptions C11_session_queue_pop_minimal.
+
+Theorem C11_session_queue_pops_in_order :
+  forall (T : Type) (dom : T -> Prop) (ts : layout (T -> T -> Z)) (tb : T -> T -> bool) (d : T),
+  (forall a b : T, {a = b} + {a <> b}) -> all_valid dom ts -> swo_on dom tb ->
+  forall xs, Forall dom xs ->
+  exists out, heap_sort (order_fn ts tb) xs = Some out /\ Permutation out xs /\
+              sorted_by (order_fn ts tb) out.
+Proof. exact @session_queue_pops_in_order. Qed.
+Print Assumptions C11_session_queue_pops_in_order.
+
+(* ---- the victim orders: what is false, and exactly what holds ---- *)
+
+(* FALSE as literally stated in the property: both victim orders answer TRUE on
+   (x, x) - Go `return !ssn.TaskOrderFn(l, r)` (session_plugins.go BuildVictimsPriorityQueue)
+   and `return !ssn.QueueOrderFn(l, r)` (VictimQueueOrderFn) - so they are not
+   irreflexive (reproduced on the real closures, harness selectors 4 and 8) *)
+Theorem C11_victim_less_reflexive_refuted :
+  forall (task_ts job_ts queue_ts vq_ts : layout (item -> item -> Z)) jobs queues pj,
+  all_valid everywhere task_ts ->
+  forall l, victim_less task_ts job_ts queue_ts vq_ts jobs queues pj l l = Some true.
+Proof. exact victim_less_diag. Qed.
+Print Assumptions C11_victim_less_reflexive_refuted.
+
+Theorem C11_victim_queue_order_reflexive_refuted :
+  forall queue_ts vq_ts : layout (item -> item -> Z),
+  all_valid everywhere queue_ts -> all_valid everywhere (force_en_all vq_ts) ->
+  forall a, victim_queue_order_fn vq_ts queue_ts a a = true.
+Proof. exact victim_queue_order_diag. Qed.
+Print Assumptions C11_victim_queue_order_reflexive_refuted.
+
+(* TRUE: on two victims with different UIDs the less function IS the
+   lexicographic session order of four keys (orphan first; victim-queue order of
+   the job's queue; reversed job order; reversed task order) - for every pattern
+   of found / orphaned victims and a present or missing preemptor job *)
+Theorem C11_victim_less_as_order :
+  forall (task_ts job_ts queue_ts vq_ts : layout (item -> item -> Z)) jobs queues pj,
+  all_valid everywhere task_ts -> all_valid everywhere job_ts ->
+  all_valid everywhere queue_ts -> all_valid everywhere (force_en_all vq_ts) ->
+  (forall q1 q2 a b, q1 <> q2 -> queues q1 = Some a -> queues q2 = Some b -> i_uid a <> i_uid b) ->
+  forall l r b,
+    i_uid (vt_item l) <> i_uid (vt_item r) ->
+    victim_less task_ts job_ts queue_ts vq_ts jobs queues pj l r = Some b ->
+    b = order_fn (victim_layout job_ts queue_ts vq_ts jobs queues pj) (rev_task task_ts) l r.
+Proof. exact victim_less_as_order. Qed.
+Print Assumptions C11_victim_less_as_order.
+
+(* ... which is a strict weak order on every victim set with pod names of one kind *)
+Theorem C11_victim_order_strict_weak :
+  forall (task_ts job_ts queue_ts vq_ts : layout (item -> item -> Z)) jobs queues pj,
+  all_valid everywhere task_ts -> all_valid everywhere job_ts ->
+  all_valid everywhere queue_ts -> all_valid everywhere (force_en_all vq_ts) ->
+  forall k, swo_on (fun t => idx_kind k (vt_item t))
+                   (order_fn (victim_layout job_ts queue_ts vq_ts jobs queues pj) (rev_task task_ts)).
+Proof. exact victim_order_strict_weak. Qed.
+Print Assumptions C11_victim_order_strict_weak.
+
+(* ... hence the less function itself is transitive on victims with distinct UIDs *)
+Theorem C11_victim_less_transitive :
+  forall (task_ts job_ts queue_ts vq_ts : layout (item -> item -> Z)) jobs queues pj,
+  all_valid everywhere task_ts -> all_valid everywhere job_ts ->
+  all_valid everywhere queue_ts -> all_valid everywhere (force_en_all vq_ts) ->
+  (forall q1 q2 a b, q1 <> q2 -> queues q1 = Some a -> queues q2 = Some b -> i_uid a <> i_uid b) ->
+  forall k l m r,
+    idx_kind k (vt_item l) -> idx_kind k (vt_item m) -> idx_kind k (vt_item r) ->
+    i_uid (vt_item l) <> i_uid (vt_item m) -> i_uid (vt_item m) <> i_uid (vt_item r) ->
+    i_uid (vt_item l) <> i_uid (vt_item r) ->
+    victim_less task_ts job_ts queue_ts vq_ts jobs queues pj l m = Some true ->
+    victim_less task_ts job_ts queue_ts vq_ts jobs queues pj m r = Some true ->
+    forall b, victim_less task_ts job_ts queue_ts vq_ts jobs queues pj l r = Some b -> b = true.
+Proof. exact victim_less_transitive. Qed.
+Print Assumptions C11_victim_less_transitive.
+
+(* ... and the victims queue (reflexive less and all) pops its victims in that
+   order: container/heap only ever compares two different queued elements *)
+Theorem C11_victims_queue_pops_in_order :
+  forall (task_ts job_ts queue_ts vq_ts : layout (item -> item -> Z)) jobs queues pj,
+  all_valid everywhere task_ts -> all_valid everywhere job_ts ->
+  all_valid everywhere queue_ts -> all_valid everywhere (force_en_all vq_ts) ->
+  (forall q1 q2 a b, q1 <> q2 -> queues q1 = Some a -> queues q2 = Some b -> i_uid a <> i_uid b) ->
+  forall (U : list vtask) (k : bool),
+    NoDup (map (fun t => i_uid (vt_item t)) U) ->
+    (forall t, In t U -> idx_kind k (vt_item t)) ->
+    (forall l r, In l U -> In r U ->
+                 victim_less task_ts job_ts queue_ts vq_ts jobs queues pj l r <> None) ->
+    exists out,
+      heap_sort (vless task_ts job_ts queue_ts vq_ts jobs queues pj) U = Some out /\
+      Permutation out U /\
+      sorted_by (vless task_ts job_ts queue_ts vq_ts jobs queues pj) out.
+Proof. exact victims_queue_pops_in_order. Qed.
+Print Assumptions C11_victims_queue_pops_in_order.
+
+(* ---- the executable laws mean the clauses ---- *)
+Theorem C11_law_vote_sound : forall ts got, law_vote ts got = true ->
+  (got = false <->
+   exists pre t post, ts = pre ++ t :: post /\
+     (forall t' p, In t' pre -> In p t' -> active p = true -> s_ans p <= 0) /\
+     (exists p, In p t /\ active p = true /\ s_ans p < 0)).
+Proof. exact law_vote_sound. Qed.
+Print Assumptions C11_law_vote_sound.
+
+Theorem C11_law_sorted_spec : forall (A : Type) (less : A -> A -> bool) out,
+  law_sorted less out = true <-> ForallOrdPairs (fun x y => less y x = false) out.
+Proof. exact @law_sorted_spec. Qed.
+Print Assumptions C11_law_sorted_spec.
 
 (* ---- non-vacuity ---- *)
 Example C11_victims_nonvacuous :
@@ -316,8 +454,21 @@ Example C11_votes_nonvacuous :
 Proof. exact votes_nonvacuous. Qed.
 
 Example C11_heap_nonvacuous :
-  (forall a b, Z.ltb a b = true -> Z.ltb b a = false) /\
-  (forall a b c, Z.ltb a c = true -> Z.ltb a b = true \/ Z.ltb b c = true) /\
+  (forall a b : Z, True -> True -> a <> b -> Z.ltb a b = true -> Z.ltb b a = false) /\
+  (forall a b c : Z, True -> True -> True -> a <> b -> b <> c -> a <> c ->
+                     Z.ltb a c = true -> Z.ltb a b = true \/ Z.ltb b c = true) /\
   run Z.ltb [OpPush 5; OpPush 3; OpPush 4; OpPop; OpPush 1; OpPop; OpPop; OpPop; OpPop] =
-  (Some [], [Some 3; Some 1; Some 4; Some 5; None]).
+  (Some [], [Some 3; Some 1; Some 4; Some 5; None]) /\
+  heap_sort Z.ltb [5; 3; 4; 3; 1] = Some [1; 3; 3; 4; 5].
 Proof. exact heap_nonvacuous. Qed.
+
+Example C11_victims_queue_nonvacuous :
+  all_valid everywhere ex_layout /\
+  NoDup (map (fun t => i_uid (vt_item t)) ex_victims) /\
+  (forall t, In t ex_victims -> idx_kind true (vt_item t)) /\
+  forallb (fun l => forallb (fun r =>
+     match victim_less ex_layout ex_layout ex_layout [] ex_vjobs ex_vqueues 0 l r with
+     | Some _ => true | None => false end) ex_victims) ex_victims = true /\
+  option_map (map (fun t => i_uid (vt_item t))) (heap_sort ex_vless ex_victims) = Some [4; 3; 2; 1; 5] /\
+  forallb (fun t => ex_vless t t) ex_victims = true.
+Proof. exact victims_queue_nonvacuous. Qed.
